@@ -126,7 +126,7 @@ F_SCAN = ["htx.rs VarFile::next_key_piece_offset", "vfile.rs seek_from_start / s
 F_BKT = ["htx.rs VarFile::write_key_piece_offset", "htx.rs VarFile::read_key_piece_offset"]
 
 
-B_MEM = {"b_scan_128_at56": 6, "b_scan_128_at120": 6, "b_scan_128_at0": 6, "b_scan_128_at64": 6, "b_scan_256_at184": 12, "b_scan_g128": 8, "b_scan_g256": 14, "b_scan_g512": 20, "b_bucket_n256": 14, "b_scan_g64": 5, "b_scan_n16": 4}
+B_MEM = {"b_scan_128_at56": 6, "b_scan_128_at120": 6, "b_scan_128_at0": 6, "b_scan_128_at64": 6, "b_scan_256_at184": 12, "b_scan_g128": 8, "b_scan_g256": 14, "b_bucket_n256": 14, "b_scan_g64": 5, "b_scan_n16": 4}
 
 
 def B(name, what, cap=600, tier="quick", stub=False, **kw):
@@ -140,7 +140,7 @@ def B(name, what, cap=600, tier="quick", stub=False, **kw):
 W_SCAN = "bucket scan contract with a universally quantified bucket j: next_key_piece_offset(n, idx) returns (r+1, head[r]) for the least non-empty bucket r >= idx, else (>= n, 0); no arithmetic overflow, read-only, file length unchanged, all three loops terminate (unwinding assertions)"
 B_SCAN_SMALL = [B("b_scan_n%d" % n, W_SCAN, bounds="table of %d buckets, every byte of table and bitmap symbolic, EVERY start index" % n, functions=F_SCAN, cap=400, may_unsat=["hit found through the bitmap"] if n <= 8 else None) for n in (1, 2, 4, 8, 16)]
 B_SCAN_G = {n: B("b_scan_g%d" % n, W_SCAN, bounds="table of %d buckets, every byte symbolic, every group-aligned start index (the unaligned path is the plain linear loop covered for n <= 16)" % n, functions=F_SCAN,
-                 cap=cap, tier=tier) for n, cap, tier in [(32, 600, "quick"), (64, 900, "thorough"), (128, 1200, "thorough"), (256, 2400, "thorough"), (512, 3600, "thorough")]}
+                 cap=cap, tier=tier) for n, cap, tier in [(32, 600, "quick"), (64, 900, "thorough"), (128, 1200, "thorough"), (256, 2400, "thorough")]}
 B_SCAN_AT = {k: B("b_scan_%s" % k, W_SCAN, bounds="table of %s buckets, every byte symbolic, start index %s (where the loops of the scan hand over to each other)" % (k.split("_")[0], k.split("at")[1]), functions=F_SCAN, cap=900, tier=t)
              for k, t in [("128_at56", "quick"), ("128_at120", "quick"), ("128_at0", "thorough"), ("128_at64", "thorough"), ("256_at184", "thorough")]}
 W_BKT = "write_key_piece_offset(n, idx, off): bucket idx holds off as 8 bytes LE at 128 + 8*idx, its occupancy bit = (off != 0), every other bucket, every other bit, the header and the file length unchanged (universally quantified byte i)"
@@ -285,9 +285,9 @@ prop("C16", M_FAULT + [B_SYNC] + B_WRAP, trusted_base=TB_COMMON + M_TB + B_TB, r
      outside=["that a rabuf chunk stays dirty when its write fails, RLIMIT_FSIZE / ENOSPC behaviour of the OS (dependency and kernel): the abyssiniandb part - error propagation and the dirty flag - is what is decided"])
 
 R_B = "B-harness rule: the real byte-level function on a symbolic file image."
-prop("C04", list(M_ITER.values()) + [B_SCAN_SMALL[1], B_SCAN_SMALL[3], B_SCAN_SMALL[4], B_SCAN_G[32], B_SCAN_AT["128_at56"], B_SCAN_AT["128_at120"], thorough(M_ITER_X[1]), thorough(M_ITER_X[2]), thorough(B_SCAN_SMALL[0]), thorough(B_SCAN_SMALL[2]), B_SCAN_AT["128_at0"], B_SCAN_AT["128_at64"], B_SCAN_AT["256_at184"], B_SCAN_G[64], B_SCAN_G[128], B_SCAN_G[256], B_SCAN_G[512], M_ITER_X[0], M_ITER_X[3], M_BIG["iter_mut"]],
+prop("C04", list(M_ITER.values()) + [B_SCAN_SMALL[1], B_SCAN_SMALL[3], B_SCAN_SMALL[4], B_SCAN_G[32], B_SCAN_AT["128_at56"], B_SCAN_AT["128_at120"], thorough(M_ITER_X[1]), thorough(M_ITER_X[2]), thorough(B_SCAN_SMALL[0]), thorough(B_SCAN_SMALL[2]), B_SCAN_AT["128_at0"], B_SCAN_AT["128_at64"], B_SCAN_AT["256_at184"], B_SCAN_G[64], B_SCAN_G[128], B_SCAN_G[256], M_ITER_X[0], M_ITER_X[3], M_BIG["iter_mut"]],
      trusted_base=TB_COMMON + M_TB + B_TB, rule=R_M + " " + R_B, bounds="iterators: " + M_BOUNDS + "; bucket scan: tables of 2, 8, 16 (thorough also 1, 4) buckets with every start index, 32 (thorough: 64..512) buckets with every group-aligned start index, 128 buckets from the start indices 56 and 120 (thorough: 0, 64; 256 from 184), all table bytes symbolic",
-     outside=["modification during a traversal (excluded by the property)", "tables of more than 512 buckets: the scan code depends on n only through the loop bounds idx + 8 < n and idx < n and the 64-bucket stride, all of which are crossed at 128..512"])
+     outside=["modification during a traversal (excluded by the property)", "tables of more than 256 buckets (512 buckets with every aligned start index ran out of 24 GB after 45 min and is not registered): the scan code depends on n only through the loop bounds idx + 8 < n and idx < n and the 64-bucket stride, all of which are crossed at 128..256"])
 prop("C02", B_OPEN_EX + [B_OPEN_NEW] + B_OPEN_DAT + B_HDRW + [MB["lookup"], K_HASH()[0], thorough(MV["lookup"]), M_2STEP],
      trusted_base=TB_COMMON + M_TB + B_TB, rule=R_B, bounds="stored tables of 2 and 8 buckets with symbolic contents; all parameter values",
      outside=["that rabuf's Drop writes every dirty chunk and that the OS returns what was written (dependency / kernel)", "reopen in another process", "the Rc handle graph of FileDb (see C11)",
